@@ -203,7 +203,7 @@ func (g GroupedPoints) SetValue(v reflect.Value) error {
 			}
 			if p.Tombstone%2 != 0 {
 				// We want to delete the map entry if Tombstone is set
-				v.SetMapIndex(reflect.ValueOf(key), reflect.Value{})
+				v.SetMapIndex(reflect.ValueOf(key).Convert(t.Key()), reflect.Value{})
 			} else {
 				// Create and set a new map value
 				// Note: map values must be set on newly created Values
@@ -214,7 +214,7 @@ func (g GroupedPoints) SetValue(v reflect.Value) error {
 				if err != nil {
 					return err
 				}
-				v.SetMapIndex(reflect.ValueOf(key), newV)
+				v.SetMapIndex(reflect.ValueOf(key).Convert(t.Key()), newV)
 			}
 		}
 	case reflect.Struct:
